@@ -1071,7 +1071,11 @@ func (w *c09world) down(p int, how string) string {
 	}
 	if had && nrh > 0 {
 		// handlers that use the router: each has to come back from it
-		for end := time.Now().Add(w.allowed(1, 1) + patience); time.Now().Before(end); {
+		back := w.allowed(1, 1) // they send to healthy peers: no more than one connect
+		if back > 12*time.Second {
+			back = 12 * time.Second
+		}
+		for end := time.Now().Add(back); time.Now().Before(end); {
 			if atomic.LoadInt64(&w.rhOut)-rhOutBefore >= int64(nrh) {
 				break
 			}
